@@ -39,6 +39,186 @@ theorem C18_delim_reads_back_text (s ctx : Str) (unq tri : Bool) (limit line : N
   · have hA := C02_analysis_facts s unq tri limit h13
     exact Lemmas.DecodeMarker.decodeText_plain s h13 (hA.reserved hd hres)
 
+
+open Spec.Lexical Model.Lexer Model.Writer Model.Decode in
+/-- **C18_text_field_reads_back_all — EVERY text-field recommendation reads back**, composed with the writer's fold / prefix
+    protocol.  For every string `s` of CIF 2.0 characters (`okUnits .cif2`: no CR, no NUL, no character outside the CIF 2.0 set —
+    the only side condition; NOT assumed: plainness, line lengths, absence of `<LF>;`, absence of a reserved start) and EVERY
+    argument triple `allow_unquoted`, `allow_triple_quoted`, `length_limit` for which `cif_analyze_string` recommends the text-field
+    delimiter, let `a` be the analysis record and `(fold, prefix) = charFlags a` the two protocol flags `write_char` derives from
+    `a` (line folding when the first line ≥ 2048, a line > 2048, a reserved start or a semicolon run ≥ 2047; prefixing when
+    `<LF>;` occurs or folding meets a semicolon).  Then there is a body such that
+    1. `write_text` with those flags emits exactly `<LF>;` body `<LF>;` in every context — it never fails —, and this IS what
+       `write_char` (hence `cif_write`) emits for the value in CIF 2.0 mode when the triple is the one `write_char` passes
+       (`!quoted`, `true`, `CIF_LINE_LENGTH`);
+    2. `decode_text` (line unfolding and prefix removal enabled: the parser's defaults) maps the body back to exactly `s`;
+    3. the scanner (`next_token`, model of parser.c) reads the emitted presentation — behind ANY admissible whitespace / comment
+       run, at any line and column from which no over-long line arises, from any scanner state, followed by any admissible context,
+       under every error-callback policy — as ONE `TVALUE` token whose text is that body, consuming exactly the presentation and
+       reporting nothing (no over-long line, no disallowed character: the folded / prefixed body keeps every line within 2048).
+    Items 2 + 3 are "read back by the CIF 2.0 parser as exactly that string" for the text-field case of property C18 in full:
+    `C18_delim_reads_back_text` (the plain case) is the instance `fold = prefix = false`. -/
+theorem C18_text_field_reads_back_all (s : Str) (unq tri : Bool) (limit : Nat)
+    (hchars : okUnits .cif2 none s = true)
+    (hd : (analyze s unq tri limit).delimLength = 2) :
+    ∃ body : Str,
+      (∀ c : Ctx, writeText c s (Lemmas.WriterChar.charFlags (analyze s unq tri limit)).1 (Lemmas.WriterChar.charFlags (analyze s unq tri limit)).2
+          = .ok (a!"\n;" ++ body ++ a!"\n;", { c with lastColumn := 1 })) ∧
+      (∀ (c : Ctx) (q : Bool), c.isCif1 = false → unq = (!q) → tri = true → limit = LINE →
+          writeChar c s q true = .ok (a!"\n;" ++ body ++ a!"\n;", { c with lastColumn := 1 })) ∧
+      decodeText true true body = s ∧
+      (∀ (w0 : List WsAtom) (ctx : Str) (line col : Nat) (lt : TokType) (pol : Policy) (log : List Report),
+        (∀ x ∈ w0, x.ok .cif2 = true) → (afterWsOf lt = true ∨ ∀ b rest, w0 ≠ WsAtom.comment b :: rest) →
+        linesFit col (renderWs w0) = true → (posAfter line col (renderWs w0)).2 ≤ LINE → followOk .cif2 ctx = true →
+        ∃ L C, nextToken .cif2 ⟨renderWs w0 ++ ((a!"\n;" ++ body ++ a!"\n;") ++ ctx), line, col, lt⟩ pol log
+          = .ok (⟨.tvalue, body, L, C⟩, ⟨ctx, L, C, .tvalue⟩) log) := by
+  have hcr : (13 : CU) ∉ s := Lemmas.WriterLex.okUnits_noCR _ s hchars
+  have hA := C02_analysis_facts s unq tri limit hcr
+  have hst := C18_stats_exact s unq tri limit
+  generalize ha : analyze s unq tri limit = a at *
+  have hflags := C02_flags_semis s a hA.semis
+  unfold C02_flags at hflags
+  -- the body exists: write_text cannot fail with these flags
+  have hbody : ∃ body, Writer.textBody s (Lemmas.WriterChar.charFlags a).1 (Lemmas.WriterChar.charFlags a).2 = .ok body := by
+    rcases hflags with h | h | h
+    · exact ⟨s, by simp [Writer.textBody, h]⟩
+    · exact C02_text_total s _ _ (Or.inl h)
+    · exact C02_text_total s _ _ (Or.inr h)
+  obtain ⟨body, hb⟩ := hbody
+  -- what the flags imply when they are off
+  have hfold_off : (Lemmas.WriterChar.charFlags a).1 = false →
+      a.lengthFirst < LINE ∧ a.lengthMax ≤ LINE ∧ a.hasReservedStart = false ∧
+      ((Lemmas.WriterChar.charFlags a).2 = true → a.lengthMax + PREFIX_LENGTH ≤ LINE) := by
+    intro hf
+    unfold Lemmas.WriterChar.charFlags at hf ⊢
+    simp only at hf ⊢
+    split at hf
+    · cases hf
+    · rename_i hnp
+      simp only [Bool.or_eq_false_iff, decide_eq_false_iff_not, Nat.not_le, Nat.not_lt] at hf
+      refine ⟨hf.1.1.1, hf.1.1.2, hf.1.2, ?_⟩
+      intro hp
+      simp only [hp, true_and, Nat.not_lt] at hnp
+      exact hnp
+  have hpre_off : (Lemmas.WriterChar.charFlags a).2 = false → a.containsTextDelim = false := by
+    intro hp
+    unfold Lemmas.WriterChar.charFlags at hp
+    simp only [Bool.or_eq_false_iff] at hp
+    exact hp.1
+  have hlines : ∀ l ∈ Model.Writer.splitLines s, l.length ≤ a.lengthMax := by
+    intro l hl
+    rw [hst.2.2.2.2.1, Lemmas.WriterLexFits.splitLines_eq s hcr]
+    exact Lemmas.WriterLex.le_maxLen _ _ hl
+  have hfirst : ((Model.Writer.splitLines s).headD []).length = a.lengthFirst := by
+    rw [hst.2.2.1, Lemmas.WriterLexFits.splitLines_eq s hcr]
+  -- the side condition of the protocol theorem
+  have hside : (Lemmas.WriterChar.charFlags a).1 = true ∨ (Lemmas.WriterChar.charFlags a).2 = true ∨ C02_plainAdmissible s := by
+    by_cases hf : (Lemmas.WriterChar.charFlags a).1 = true
+    · left; exact hf
+    · by_cases hp : (Lemmas.WriterChar.charFlags a).2 = true
+      · right; left; exact hp
+      · right; right
+        exact hA.reserved hd (hfold_off (by simpa using hf)).2.2.1
+  have hdec : decodeText true true body = s := C02_text_protocol s _ _ body hcr hside hb
+  have hwt : ∀ c : Ctx, writeText c s (Lemmas.WriterChar.charFlags a).1 (Lemmas.WriterChar.charFlags a).2
+      = .ok (a!"\n;" ++ body ++ a!"\n;", { c with lastColumn := 1 }) := by
+    intro c; simp [writeText, hb, TEXT_CLOSE]
+  refine ⟨body, hwt, ?_, hdec, ?_⟩
+  · intro c q hc2 hq ht hl
+    subst hq ht hl
+    have hv : ¬(c.isCif1 = true ∧ validate11 s = false) := by simp [hc2]
+    have ha' : analyze s (!q) (!c.isCif1) LINE = a := by rw [hc2]; exact ha
+    have hd' : (analyze s (!q) (!c.isCif1) LINE).delimLength = 2 := by rw [ha']; exact hd
+    have hr : ¬((true : Bool) = false ∨ ((analyze s (!q) (!c.isCif1) LINE).containsTextDelim = true ∧ c.isCif1 = true)) := by
+      simp [hc2]
+    rw [Lemmas.WriterChar.writeChar_delim2 c s q true hv hd' hr, ha']
+    exact hwt c
+  · intro w0 ctx line col lt pol log hw0 hfirstw hfitw hcolw hctx
+    -- admissible text-field body
+    have hadm : admissible .cif2 .text body = true := by
+      simp only [admissible, textOk, Bool.and_eq_true]
+      refine ⟨Lemmas.WriterLexUnits.body_units _ s _ _ body hchars hb, ?_⟩
+      apply Lemmas.WriterLexText.body_textBody s _ _ body hcr hb
+      rcases hflags with hh | hh | hh
+      · right; right
+        refine ⟨hh.1, hh.2, ?_⟩
+        apply Lemmas.WriterLexText.textBody_of_lines s false hcr
+        · rw [← hst.2.2.2.2.2.2.1]; exact hpre_off hh.2
+        · intro e; cases e
+      · left; exact hh
+      · right; left; exact hh
+    -- no over-long line, from any column ≤ 2048
+    have hfits : linesFit (posAfter line col (renderWs w0)).2 (10 :: renderValue .text body) = true := by
+      apply Lemmas.WriterLexFits.text_out_fits s _ _ body hcr hb hflags ?_ _ hcolw
+      by_cases hf : (Lemmas.WriterChar.charFlags a).1 = true
+      · left; exact hf
+      · right
+        have hoff := hfold_off (by simpa using hf)
+        constructor
+        · intro l hl
+          have := hlines l hl
+          cases hp : (Lemmas.WriterChar.charFlags a).2
+          · simp [Lemmas.WriterLexFits.pfxLen]; omega
+          · have := hoff.2.2.2 hp
+            simp [Lemmas.WriterLexFits.pfxLen, PREFIX_LENGTH] at *; omega
+        · rw [hfirst]; omega
+    -- the line break in front of the text field is one more whitespace atom
+    have hrender : renderWs (w0 ++ [WsAtom.eol]) = renderWs w0 ++ [10] := by simp [renderWs]; rfl
+    have hout : (a!"\n;" ++ body ++ a!"\n;") = [10] ++ renderValue .text body := by simp [renderValue]
+    have hin : renderWs w0 ++ ((a!"\n;" ++ body ++ a!"\n;") ++ ctx) = renderWs (w0 ++ [WsAtom.eol]) ++ (renderValue .text body ++ ctx) := by
+      rw [hrender, hout]; simp
+    have hf2 : linesFit (posAfter line col (renderWs w0)).2 ([10] ++ renderValue .text body) = true := hfits
+    rw [linesFit_append] at hf2
+    simp only [Bool.and_eq_true] at hf2
+    have hfitw' : linesFit col (renderWs (w0 ++ [WsAtom.eol])) = true := by
+      rw [hrender, linesFit_append, hfitw, Bool.true_and]
+      rw [posAfter_col_indep (renderWs w0) 0 line col]
+      exact hf2.1
+    have hcolEq : (posAfter line col (renderWs (w0 ++ [WsAtom.eol]))).2
+        = (posAfter 0 (posAfter line col (renderWs w0)).2 [10]).2 := by
+      rw [hrender, posAfter_append]
+      exact posAfter_col_indep _ _ _ _
+    have hfitv : linesFit (posAfter line col (renderWs (w0 ++ [WsAtom.eol]))).2 (renderValue .text body) = true := by
+      rw [hcolEq]; exact hf2.2
+    have hstart : startOk .text body (posAfter line col (renderWs (w0 ++ [WsAtom.eol]))).2 = true := by
+      rw [hcolEq]; simp [startOk, posAfter]
+    have hatoms : ∀ x ∈ w0 ++ [WsAtom.eol], x.ok .cif2 = true := by
+      intro x hx
+      rcases List.mem_append.mp hx with h1 | h1
+      · exact hw0 x h1
+      · simp at h1; subst h1; rfl
+    have hfirst' : afterWsOf lt = true ∨ ∀ b rest, w0 ++ [WsAtom.eol] ≠ WsAtom.comment b :: rest := by
+      rcases hfirstw with h1 | h1
+      · left; exact h1
+      · right
+        intro b rest
+        cases w0 with
+        | nil => simp
+        | cons x r =>
+          intro e
+          simp only [List.cons_append, List.cons.injEq] at e
+          exact h1 b r (by rw [e.1])
+    have hws' : (afterWsOf lt || !(w0 ++ [WsAtom.eol]).isEmpty) = true := by
+      cases afterWsOf lt <;> simp
+    refine ⟨(posAfter line col (renderWs (w0 ++ [WsAtom.eol]) ++ renderValue .text body)).1,
+      (posAfter line col (renderWs (w0 ++ [WsAtom.eol]) ++ renderValue .text body)).2, ?_⟩
+    rw [hin]
+    exact C01_lex_value_after_ws .cif2 (w0 ++ [WsAtom.eol]) .text body ctx line col lt pol log hatoms hfirst' hws' hfitw'
+      hadm hfitv hstart hctx
+
 -- non-vacuity ------------------------------------------------------------------------------------------------------------
+/-- a text-field recommendation that NEEDS the prefix protocol (`<LF>;` inside, both triple delimiters present): the hypotheses of
+    `C18_text_field_reads_back_all` hold with the very arguments `write_char` passes, and the emitted body is the prefixed one -/
+example : (analyze (a!"'''\"\"\"\n;x") true true Model.Writer.LINE).delimLength = 2 ∧
+    (analyze (a!"'''\"\"\"\n;x") true true Model.Writer.LINE).containsTextDelim = true ∧
+    Spec.Lexical.okUnits .cif2 none (a!"'''\"\"\"\n;x") = true := by decide
+example : ∃ body, Model.Writer.writeChar {} (a!"'''\"\"\"\n;x") false true = .ok (a!"\n;" ++ body ++ a!"\n;", { lastColumn := 1 }) ∧
+    Model.Decode.decodeText true true body = (a!"'''\"\"\"\n;x") := by
+  obtain ⟨body, _, h2, h3, _⟩ := C18_text_field_reads_back_all (a!"'''\"\"\"\n;x") true true Model.Writer.LINE (by decide) (by decide)
+  exact ⟨body, h2 {} false rfl rfl rfl rfl, h3⟩
+example : Model.Writer.textBody (a!"'''\"\"\"\n;x") false true = .ok (a!"> \\\n> '''\"\"\"\n> ;x") := by rfl
+/-- a reserved start (first line ends in a backslash): folding is switched on -/
+example : (analyze (a!"ab\\\ncd") true false 2048).delimLength = 2 ∧ (analyze (a!"ab\\\ncd") true false 2048).hasReservedStart = true := by decide
+
 
 end CifModel
